@@ -1,4 +1,5 @@
 """Monitors that watch the real pycparser code while the harness drives it."""
+import os
 import re
 import sys
 import traceback
@@ -15,7 +16,15 @@ class StepMonitor:
     pycparser's own code objects.  Deterministic: the same input gives the same
     count.  With a budget set, raises StepBudgetExceeded out of the API call."""
 
-    def __init__(self, tool_id=None):
+    def __init__(self, tool_id=None, work=False):
+        # work=True (C16): a wider measure of work - function entries in ANY Python code run on behalf of the call
+        # (copy.deepcopy, re, dataclass code; the harness itself excluded) plus one step per backward jump, i.e. per
+        # loop iteration, inside pycparser: loops that call no Python function are otherwise invisible
+        self.work = work
+        self.attrib = set()      # qualnames whose loop iterations are also counted separately (known-finding attribution)
+        self.attributed = 0
+        self.attributed_by = {}
+        self.harness = os.path.dirname(os.path.abspath(__file__))
         self.mon = sys.monitoring
         self.tool = self.mon.PROFILER_ID if tool_id is None else tool_id
         self.n = 0
@@ -34,7 +43,27 @@ class StepMonitor:
                 self.budget = None  # fire once
                 raise StepBudgetExceeded(self.n)
             return None
+        if self.work and not code.co_filename.startswith(self.harness):
+            self.n += 1
+            if self.budget is not None and self.n > self.budget:
+                self.budget = None
+                raise StepBudgetExceeded(self.n)
+            return None
         return self.mon.DISABLE
+
+    def _jump(self, code, offset, dest):
+        if dest < offset and code.co_filename.startswith(self.pkg):
+            self.n += 1
+            if code.co_qualname in self.attrib:
+                self.attributed += 1
+                self.attributed_by[code.co_qualname] = self.attributed_by.get(code.co_qualname, 0) + 1
+            if self.budget is not None and self.n > self.budget:
+                self.budget = None
+                raise StepBudgetExceeded(self.n)
+            return None
+        if not code.co_filename.startswith(self.pkg):
+            return self.mon.DISABLE
+        return None
 
     def start(self, coverage=False):
         if self.active:
@@ -43,7 +72,12 @@ class StepMonitor:
             self.funcs = {}
         self.mon.use_tool_id(self.tool, "vf-steps")
         self.mon.register_callback(self.tool, self.mon.events.PY_START, self._cb)
-        self.mon.set_events(self.tool, self.mon.events.PY_START)
+        ev = self.mon.events.PY_START
+        if self.work:
+            self.mon.register_callback(self.tool, self.mon.events.JUMP, self._jump)
+            ev |= self.mon.events.JUMP
+            self.mon.restart_events()
+        self.mon.set_events(self.tool, ev)
         self.active = True
 
     def stop(self):
@@ -51,11 +85,15 @@ class StepMonitor:
             return
         self.mon.set_events(self.tool, 0)
         self.mon.register_callback(self.tool, self.mon.events.PY_START, None)
+        if self.work:
+            self.mon.register_callback(self.tool, self.mon.events.JUMP, None)
         self.mon.free_tool_id(self.tool)
         self.active = False
 
     def begin(self, budget=None):
         self.n = 0
+        self.attributed = 0
+        self.attributed_by = {}
         self.budget = budget
 
     def end(self):
